@@ -66,6 +66,7 @@ var c09Jobs = []c09Job{
 		f.NoFormat = true
 		f.Var().Id("_").Op("=").List(jen.Qual("x/yaml.v2", "Marshal"), jen.Qual("a/f", "X"), jen.Qual("b/f", "Y"), jen.Qual("l/m", "Local"), jen.Qual("d/go", "K"))
 		f.Type().Id("T").Struct(jen.Id("A").Int().Tag(map[string]string{"json": "a", "db": "b"}))
+		f.Var().Id("m").Op("=").Map(jen.String()).Int().Values(jen.Dict{k(jen.Lit("k1")): jen.Lit(1), k(jen.Lit("k2")): jen.Qual("e/f", "V"), k(jen.Qual("a/f", "K")): jen.Lit(3)})
 		return c09Out(f)
 	}},
 	{"failing-render", func(k func(jen.Code) jen.Code) string {
@@ -248,7 +249,7 @@ func runC09(r *ev.Recorder) {
 		os.Exit(2)
 	}
 	bound := 2
-	jobSets := [][]int{{0, 1}, {1, 2}, {0, 2}, {3, 0}, {1, 4}, {2, 4}, {3, 2}, {1, 1}}
+	jobSets := [][]int{{0, 1}, {1, 2}, {0, 2}, {3, 0}, {1, 4}, {2, 4}, {3, 2}, {1, 1}, {0, 0}, {2, 2}}
 	if r.Tier == ev.Thorough {
 		bound = 3
 		jobSets = append(jobSets, []int{0, 1, 2}, []int{3, 1, 2}, []int{1, 2, 4}, []int{0, 3, 4}, []int{1, 0, 3})
